@@ -375,8 +375,7 @@ func c28Size(r *vhRng) uint32 {
 	return s
 }
 
-func c28Header(r *vhRng) string {
-	var hb, pages, maxp uint32
+func c28Header(r *vhRng) (hb, pages, maxp uint32) {
 	switch r.Intn(10) {
 	case 0, 1, 2, 3:
 		hb = uint32(r.Intn(4097))
@@ -406,13 +405,55 @@ func c28Header(r *vhRng) string {
 	if maxp < pages {
 		maxp = pages
 	}
-	return fmt.Sprintf("%d,%d,%d", hb, pages, maxp)
+	return hb, pages, maxp
+}
+
+// c28ExactFill: a clean sequence whose last allocation ends exactly at, 8 before or 8 after the end of the
+// initial memory (or of 4 GiB), so that the grow / out-of-space boundary of bump is hit from both sides.
+func c28ExactFill(r *vhRng) string {
+	pages := uint32(r.Pick(1, 1, 2, 3, 16, 65536))
+	maxp := uint32(r.Pick(int(pages), int(pages)+1, 65536, 65536))
+	if maxp < pages {
+		maxp = pages
+	}
+	n := 1 + r.Intn(4)
+	var ops []string
+	total := uint64(0)
+	for i := 0; i < n; i++ {
+		k := r.Intn(10)
+		if r.Chance(1, 8) {
+			k = r.Intn(23)
+		}
+		sz := uint32(8) << k
+		total += uint64(sz) + 8
+		ops = append(ops, fmt.Sprintf("alloc %d", sz-uint32(r.Intn(2))))
+	}
+	end := uint64(pages) * PageSize
+	delta := uint64(r.Pick(0, 0, 8, 16)) // 0: ends exactly at the end; 8: 8 bytes short; 16: overshoots by 8
+	if total+16 > end {
+		return fmt.Sprintf("0,%d,%d|%s", pages, maxp, strings.Join(ops, ";"))
+	}
+	var hb uint64
+	if delta == 0 {
+		hb = end - total
+	} else if delta == 8 {
+		hb = end - total - 8
+	} else {
+		hb = end - total + 8
+	}
+	hb -= uint64(r.Intn(2)) * uint64(r.Intn(8)) // sometimes unaligned (rounds up to the same base)
+	ops = append(ops, fmt.Sprintf("alloc %d", 8<<r.Intn(3)), "free 0 0", fmt.Sprintf("alloc %d", 8<<r.Intn(3)))
+	return fmt.Sprintf("%d,%d,%d|%s", uint32(hb), pages, maxp, strings.Join(ops, ";"))
 }
 
 // c28Gen draws a sequence. `nAlloc` counts alloc ops issued so far (an upper bound of the successful ones), so that
 // `free k` mostly refers to an existing allocation. 60% of the sequences are clean (valid frees only).
 func c28Gen(r *vhRng) string {
-	hdr := c28Header(r)
+	if r.Chance(1, 10) {
+		return c28ExactFill(r)
+	}
+	hb0, pages0, maxp0 := c28Header(r)
+	hdr := fmt.Sprintf("%d,%d,%d", hb0, pages0, maxp0)
 	nops := 1 + r.Intn(40)
 	if r.Chance(1, 5) {
 		nops = 30 + r.Intn(31)
@@ -454,10 +495,14 @@ func c28Gen(r *vhRng) string {
 				k := r.Intn(nAlloc + 1)
 				v := []uint64{0, 0xffffffff, 1 << 32, 1<<32 | 5, 1<<32 | 23, 1<<33 | 1, 8, 4294967288, 0xffffffffffffffff, 1<<32 | 22, r.U64()}[r.Intn(11)]
 				ops = append(ops, fmt.Sprintf("poke %d 4294967288 %d", k, v))
-			case 6: // free-list link corruption: free, then rewrite its header to point at something else
+			case 6: // free-list link corruption: free, then rewrite its header to point at something else, then pop twice
 				k := r.Intn(nAlloc + 1)
-				tgt := r.Pick(0, 8, 16, 65528, 65536, 4294967280)
-				ops = append(ops, fmt.Sprintf("free %d 0", k), fmt.Sprintf("poke %d 4294967288 %d", k, tgt))
+				end := int(uint32(uint64(pages0) * PageSize))
+				tgt := r.Pick(0, 8, 16, end-8, end-16, end-24, end-40, end, 4294967280)
+				ops = append(ops, fmt.Sprintf("free %d 0", k), fmt.Sprintf("poke %d 4294967288 %d", k, uint32(tgt)))
+				if k < len(sizes) {
+					ops = append(ops, fmt.Sprintf("alloc %d", sizes[k]), fmt.Sprintf("alloc %d", sizes[k]))
+				}
 			case 7:
 				ops = append(ops, fmt.Sprintf("setpages %d", r.Pick(0, 1, 2, 16, 65536)))
 			case 8: // clobber a payload marker
